@@ -381,6 +381,17 @@ pub fn all() -> Vec<CheckDef> {
             assumptions: &["Tantivy's worker threads are real threads that the simulator does not schedule; their entropy is keyed by thread lineage", "differences are classified by the file region they fall in (header fields, WAL ring, payloads, index region, TOC, footer)"],
             want_probes: &["compared_clock", "compared_entropy", "compared_path_short_io"],
         },
+        CheckDef {
+            id: "C12",
+            level: "exploration",
+            quick_s: 40,
+            thorough_s: 600,
+            gen: crate::acl::gen_acl,
+            run: run_history,
+            rule: "seeded corpora whose documents carry random ACL metadata (absent, valid public/restricted for two tenants, malformed visibility / lists / tenant, JSON-quoted, padded and mixed-case encodings), committed in groups, re-labelled and re-written by updates (metadata inherited unless given anew), followed by retrieval batteries through search, vec_search_with_embedding_acl, search_adaptive_acl and ask with random caller contexts in Enforce and Audit mode, issued while records are pending, after commit, after clean and dirty restarts, on a read-only handle and after doctor; a run is non-trivial iff >=1 mutation was acknowledged and >=1 Enforce answer with hits was judged on a reopened handle; distinct = (op-kind buckets, probes) classes",
+            assumptions: &["reference evaluator of the documented policy (sim/src/acl.rs), applied to the metadata the file stores for each returned frame and to the metadata the caller supplied at put time", "this property has no fault or schedule dimension of its own: it is judged over simulator-reached states (pending records, recovery after process death, read-only, doctor)"],
+            want_probes: &["acl_enforce_nonempty", "acl_audit_compares", "acl_enforce_without_tenant_rejected", "acl_allowed_refs_checked"],
+        },
         hist("C42", gen_vacuum, &["vacuum", "deletes", "updates"]),
         medium("C20", &["medium_images", "medium_open_accepted", "medium_open_rejected", "fault_in_payload", "fault_in_toc", "fault_in_footer", "fault_in_wal", "fault_in_indexes"]),
         medium("C21", &["medium_images", "medium_doctor_ran"]),
@@ -402,4 +413,32 @@ pub fn all() -> Vec<CheckDef> {
 
 pub fn find(id: &str) -> Option<CheckDef> {
     all().into_iter().find(|c| c.id == id)
+}
+
+/// Number of seeds a quick run covers (chosen so that an idle 16-core machine needs roughly the
+/// check's nominal quick budget).
+pub fn quick_runs(id: &str) -> u64 {
+    match id {
+        "C01" => 400,
+        "C02" => 100,
+        "C03" => 90,
+        "C04" => 64,
+        "C05" => 320,
+        "C06" | "C07" => 240,
+        "C08" | "C10" | "C28" => 130,
+        "C09" | "C11" | "C13" | "C14" | "C16" => 140,
+        "C15" => 160,
+        "C17" => 160,
+        "C18" => 260,
+        "C19" => 300,
+        "C20" => 48,
+        "C21" => 48,
+        "C22" => 40,
+        "C23" => 48,
+        "C24" => 340,
+        "C25" => 400,
+        "C31" => 160,
+        "C42" => 260,
+        _ => 100,
+    }
 }
